@@ -77,7 +77,10 @@ StepBad(p, v, a, decl, discEv, afterEnd, h) ==
               /\ \E sched \in SeqSet(p.w) :
                     FinalOK(a, decl \/ p.disc \/ discEv, p.w, p.b, p.s, v.round, sched, v.sroot),
           "round finalized without unanimity of the primary votes or a backup majority after a declared discrepancy">>,
-        <<afterEnd => (v.next_timeout = -1 \/ v.next_timeout > h), "an expired round timer was left armed: the round just keeps waiting">>
+        <<afterEnd => (v.next_timeout = -1 \/ v.next_timeout > h), "an expired round timer was left armed: the round just keeps waiting">>,
+        \* D1: a discrepancy announced in this block is part of the round's state afterwards (backup workers are then admitted and
+        \* the timer runs for them) unless the round ended in the same block
+        <<(afterEnd /\ discEv /\ v.round = p.round) => v.disc, "a discrepancy was announced but the round's state does not record it">>
       >>)
 
 Obs(afterEnd) ==
